@@ -59,6 +59,18 @@ func (x c15rec) rr() dns.RR {
 	return &dns.AAAA{Hdr: dns.RR_Header{Name: owner, Rrtype: dns.TypeAAAA, Class: dns.ClassINET, Ttl: 300}, AAAA: net.ParseIP(fmt.Sprintf("2001:db8::%x", x.idx+1))}
 }
 
+var c15textCache = map[c15rec]string{}
+
+// text is the record's presentation form (used to compare delivered with transmitted records).
+func (x c15rec) text() string {
+	t, ok := c15textCache[x]
+	if !ok {
+		t = x.rr().String()
+		c15textCache[x] = t
+	}
+	return t
+}
+
 func c15SOA(s uint32) c15rec { return c15rec{soa: true, serial: s} }
 
 // ---- shapes ----
